@@ -22,12 +22,13 @@ def run(ctx):
     ctx.model_check(_batch.MC, "Batch_C15_live_fail.cfg")
     ctx.negative_control(_batch.MC, "Batch_C15_live_neg_unfair.cfg", "C15_BatchEnds")
     procs = [1, 2, 3, cores] if q else list(range(1, cores + 1))
-    _batch.validate(ctx, B.fail_position_programs(procs), "a failing execution at every position of a 4-task batch x process counts", tamper=False, isolated=True)
+    _batch.validate(ctx, B.fail_position_programs(procs), "a failing execution at every position of a 4-task batch x process counts", tamper=False, isolated=True,
+                    expect_clean=False)
     _batch.validate(ctx, B.empty_batch_programs(procs), "batches without any execution (empty value list / zero repetitions) x process counts",
                     tamper=False, isolated=True)
     _batch.validate(ctx, B.reused_list_programs(ctx.rng, procs, 30 if q else 300),
-                    "2-4 batch runs on one ParameterList with parameters added / removed in between", tamper=False, isolated=True)
+                    "2-4 batch runs on one ParameterList with parameters added / removed in between", tamper=False, isolated=True, chunk=40)
     n = 120 if q else 1500
     progs = [B.random_batch_program(ctx.rng, procs) for _ in range(n)]
     _batch.validate(ctx, progs, "random grids (1x1..3x2x2), repetitions 1..3, limits below/at/above completion, one or two collectors, "
-                                f"processes {procs[0]}..{procs[-1]}, perturbed run durations, failing executions", isolated=True)
+                                f"processes {procs[0]}..{procs[-1]}, perturbed run durations, failing executions", isolated=True, expect_clean=False, chunk=40)
